@@ -3,7 +3,7 @@
 From Coq Require Import List NArith Bool Lia String.
 From Breadlog Require Import Model.Peg Model.Text Model.Regex Model.Glue Model.Tables.
 From Breadlog Require Import Gen.Grammar Gen.Consts.
-From Breadlog Require Import Proofs.PegFacts Proofs.RuleLemmas Proofs.GlueSpec.
+From Breadlog Require Import Proofs.PegFacts Proofs.RuleLemmas Proofs.GlueSpec Proofs.StatementLemmas Proofs.FileSpec.
 From Breadlog Require Import Properties.Common.
 Import ListNotations.
 Open Scope N_scope.
@@ -38,8 +38,31 @@ Theorem C11_unconfigured_or_ignored_is_skipped : forall cfg code s e ns ne nk re
   one_macro the_params cfg code found = Skip.
 Proof. exact (one_macro_skipped the_params). Qed.
 
-(* NOT proved: that configured names without a literal message and macro-like text inside string
-   literals never parse as log_macro for all texts; these decoys are covered by the oracle campaign. *)
+(* ON EVERY FILE OF THE CANONICAL FILE LANGUAGE (Proofs/FileSpec.v; see C10_canonical_files): whatever
+   comments (with any text, commented-out statements included), names, paths, other characters and
+   statements of macros that are NOT configured the file contains -- in any number and order, with any
+   layout -- the finder returns NOTHING when no statement carries a configured name ... *)
+Theorem C11_canonical_nothing_else : forall cfg its fin,
+  items_ok its fin ->
+  (forall l n l1 us, In (l, IStmt n l1 us) its -> macro_of_interest (render_name n) cfg = false) ->
+  find cfg (render_items its fin) = Done [].
+Proof. exact find_canonical_none. Qed.
+
+(* ... and in general exactly one entry per statement with a configured name and no ignore directive,
+   none for anything else: the entry list is the concatenation, over the items in file order, of
+   `step_entries (stmt_step ...)` for statements and of nothing for every other item. *)
+Theorem C11_canonical_only_statements : forall cfg its fin,
+  items_ok its fin ->
+  let code := render_items its fin in
+  find cfg code = Done (expected cfg code its []) /\
+  (forall pre n l us, macro_of_interest (render_name n) cfg = false -> step_entries (stmt_step cfg code pre n l us) = []) /\
+  (forall pre n l us, directive_check the_params (p_ignore the_params) code (blen pre) (p_comment_re the_params) = Some true ->
+                      stmt_step cfg code pre n l us = Skip).
+Proof. exact find_canonical_only_statements. Qed.
+
+(* NOT proved: that configured names without a literal message (bracketed macro calls whose arguments
+   do not begin with a string literal) and macro-like text inside string literals never parse as
+   log_macro for all texts; these decoys are covered by the oracle campaign. *)
 
 (* non-vacuity: commented-out statements in all comment styles, the last one without newline *)
 Example C11_nonvacuous :
@@ -60,5 +83,7 @@ Example C11_nonvacuous :
 Proof. cbv zeta. split; [reflexivity|]. split; [cbn; repeat split; reflexivity|vm_compute; reflexivity]. Qed.
 
 Print Assumptions C11_comment_only_file.
+Print Assumptions C11_canonical_nothing_else.
+Print Assumptions C11_canonical_only_statements.
 Print Assumptions C11_comments_are_skipped.
 Print Assumptions C11_unconfigured_or_ignored_is_skipped.
